@@ -211,7 +211,125 @@ def c05(tier, rep):
         E.traces(rep, E.record_all(E.src_generated(2000, SEED, sorted(json.loads(a)))), "generated-multidialect")
 
 
-CHECKS = {"C02": c02, "C05": c05, "C12": c12, "C01": c01, "C03": c03, "C04": c04, "C14": c14, "C18": c18}
+PFX_TWO_RULES = [1, 3, 6, 2, 3, 7, 4, 6, 2]        # Feature, Background, Given; Rule, Background, And, Scenario, Given; Rule
+PFX_TAGGED = [10, 1, 10, 2, 10, 4, 6, 10, 5, 8, 9]  # tags at feature, rule, scenario and examples level, one example row
+PFX_OUTLINE = [1, 3, 6, 4, 6, 7, 5, 8]              # Feature, Background, Given; Scenario, Given, And; Examples, header
+
+
+def _compile_family(tier, rep, inv):
+    rep.extra["rule"] = ("every ACCEPTED document over the structural menu (features, rules, backgrounds, scenarios, examples, steps, rows, tags; "
+                         "free-text readings pruned) up to N lines, and up to k more lines after deep prefixes (two rules with backgrounds; tags at all "
+                         "four levels; outline with background); distinct documents, non-trivial = at least one pickle; plus corpus/generated traces")
+    q = tier == "quick"
+    E.grow(rep, M.STRUCT, [([], 6 if q else 8), (PFX_TWO_RULES, 3 if q else 4), (PFX_TAGGED, 2 if q else 3), (PFX_OUTLINE, 2 if q else 4)],
+           invariants=[inv], label="struct")
+    E.traces(rep, E.record_all(std_sources(tier, 300, 3000)), "corpus+gen+noisy")
+
+
+def c06(tier, rep):
+    _compile_family(tier, rep, "Inv_C06")
+
+
+def c07(tier, rep):
+    _compile_family(tier, rep, "Inv_C07")
+
+
+def c08(tier, rep):
+    _compile_family(tier, rep, "Inv_C08")
+
+
+def _stream_runs(tier, rep, n_gen):
+    import random, stream as S, gen, record as R
+    from common import master_dialects
+    r = random.Random(SEED)
+    langs = master_dialects()
+    srcs = [(n, s) for n, s in __import__("pipeline").corpus_sources() if tier == "thorough" or "very_long" not in n]
+    srcs += [(f"gen{SEED}-{i}.feature", gen.doc(SEED * 1000003 + i, "en", langs=langs)) for i in range(n_gen)]
+    srcs += [(f"noisy{SEED}-{i}.feature", gen.noisy(SEED * 7 + i, gen.doc(SEED * 1000003 + i, "en", langs=langs))) for i in range(n_gen // 2)]
+    srcs = [(u, d) for u, d in srcs if not R.source_is_path(d)]
+    r.shuffle(srcs)
+    runs, k = [], 0
+    allopts = [(a, b, c) for a in (True, False) for b in (True, False) for c in (True, False)]
+    while k < len(srcs):
+        m = r.randint(1, 5)
+        opts = (True, True, True) if r.random() < 0.5 else r.choice(allopts)
+        rec, raw = S.record_run(f"stream{len(runs)}", srcs[k:k + m], opts)
+        runs.append(rec)
+        k += m
+    return runs
+
+
+def _stream_part(tier, rep, own):
+    import stream as S, tempfile, shutil, os, json
+    streams, bad, res = S.model_check_and_replay(2 if tier == "quick" else 3)
+    rep.add_tlc("MC_Stream", res, f"{len(streams)} streams (sequences of pool sources x 8 option sets) replayed through GherkinEvents.enum; "
+                "Inv_C17_Order/Options/Uri/Rejected, Inv_C11_Unique/Dense, Act_Monotone")
+    rep.traces += len(streams)
+    for st in streams:
+        rep.case(("stream", tuple(st["seq"]), json.dumps(st["opts"], sort_keys=True)), nontrivial=len(st["seq"]) > 0)
+    rep.sample({"stream": streams[len(streams) // 2]["seq"], "opts": streams[len(streams) // 2]["opts"], "envelopes": [len(x) for x in streams[len(streams) // 2]["segs"]]})
+    for inv in sorted(set(res.invariant_violations)) + [e for e in res.errors if "ropert" in e]:
+        if own(inv):
+            rep.violation({"kind": "spec-invariant", "invariant": inv}, {"engine": "MC_Stream", "what": f"{inv} violated", "tlc_tail": res.out[-3000:]})
+    for b in bad:
+        rep.violation({"kind": "stream-replay"}, {"engine": "MC_Stream", "what": "real GherkinEvents differs from the predicted envelopes", **b})
+    runs = _stream_runs(tier, rep, 150 if tier == "quick" else 2000)
+    mism, done, res = S.validate(runs, refshapes=S.reference_shapes())
+    rep.add_tlc("Trace_Stream", res, f"{len(runs)} recorded streams ({sum(len(r['sources']) for r in runs)} sources): envelopes = spec, every envelope's shape fits Messages.tla, "
+                "order / options / uri predicates, ids unique per stream")
+    rep.traces += len(runs)
+    for i, r in enumerate(runs):
+        rep.case(("run", json.dumps(r["sources"])[:2000], json.dumps(r["opts"])))
+        for note in r["notes"]:
+            if own("note"):
+                rep.violation({"kind": "stream-note"}, {"engine": "Trace_Stream", "what": note, "run": r["name"]})
+        m = mism.get(i + 1)
+        if m and own(m["clause"]):
+            src = r["sources"][m["src"] - 1]
+            rep.violation({"kind": "stream:" + m["clause"]}, {"engine": "Trace_Stream", "what": f"stream differs: {m['clause']}", "run": r["name"], "opts": r["opts"],
+                                                              "source": "".join(map(chr, src["data"])), "uri": "".join(map(chr, src["uri"])),
+                                                              "impl": r["envs"][m["src"] - 1], "detail": m["detail"]})
+        d = done.get(i + 1)
+        if d and not d["unique"] and own("unique"):
+            rep.violation({"kind": "stream:ids-not-unique"}, {"engine": "Trace_Stream", "what": "ids of one stream are not pairwise distinct", "run": r["name"]})
+    return runs
+
+
+def c17(tier, rep):
+    import stream as S, tempfile, shutil, os, json
+    rep.extra["rule"] = ("streams: every sequence of <= N pool sources x 8 option sets (spec -> code); recorded streams of 1..5 corpus/generated/noisy "
+                         "sources with random option sets (code -> spec), every envelope reduced to a shape checked against Messages.tla; CLI output round-trip")
+    _stream_part(tier, rep, lambda what: True)
+    # the command line tool: JSON text round trip equals enum()
+    d = tempfile.mkdtemp(prefix="verif-c17-")
+    try:
+        files = []
+        for k, (u, data) in enumerate(S.POOL[:4] + [("crlf.feature", "Feature: c\r\n  Scenario: s\r\n    Given x\r\n")]):
+            p = os.path.join(d, f"{k}-{u}")
+            with open(p, "w", encoding="utf8", newline="") as fh:
+                fh.write(data)
+            files.append((p, data))
+        for flags, opts in ([], (True, True, True)), (["--no-source"], (False, True, True)), (["--no-ast", "--no-pickles"], (True, False, False)):
+            cli = S.cli_events([p for p, _ in files], flags)
+            direct = [e for seg in S.run_stream(files, opts) for e in seg]
+            rep.case(("cli", tuple(flags)))
+            if cli != json.loads(json.dumps(direct)):
+                rep.violation({"kind": "cli"}, {"engine": "cli", "what": "scripts/generate_events.py output differs from GherkinEvents.enum", "flags": flags,
+                                                "first": next(((a, b) for a, b in zip(cli, direct) if a != b), (len(cli), len(direct)))})
+    finally:
+        shutil.rmtree(d, ignore_errors=True)
+
+
+def c11(tier, rep):
+    rep.extra["rule"] = ("ids: every accepted document over the structural menu (canonical order, density, references); streams of pool sources incl. "
+                         "rejected ones (uniqueness across documents, monotone counter); corpus/generated traces and recorded streams")
+    q = tier == "quick"
+    E.grow(rep, M.STRUCT, [([], 6 if q else 8), (PFX_TAGGED, 2 if q else 3), (PFX_OUTLINE, 2 if q else 4)], invariants=["Inv_C11"], label="struct")
+    _stream_part(tier, rep, lambda what: what in ("Inv_C11_Unique", "Inv_C11_Dense", "unique", "envelopes") or "Monotone" in what)
+    E.traces(rep, E.record_all(std_sources(tier, 300, 3000)), "corpus+gen+noisy")
+
+
+CHECKS = {"C02": c02, "C11": c11, "C17": c17, "C06": c06, "C07": c07, "C08": c08, "C05": c05, "C12": c12, "C01": c01, "C03": c03, "C04": c04, "C14": c14, "C18": c18}
 
 
 def replay(prop: str, path: str) -> int:
